@@ -229,6 +229,8 @@ func checkC04(w *World, r *Report) {
 
 	checkStopFn(w, r, pr, "C04.R2")
 	pr.lta.export(r, "C04.R3", ltaProtocolKinds, "lifecycle protocol")
+	r.Rule("C04.R4", "the worker loop re-reads the status before every batch: nothing is handed to a process that the previous batch stopped", 1)
+	checkLoopStatus(w, r, "C04.R4")
 }
 
 // checkStopFn: shared by C04.R2, C06.R3.
@@ -253,8 +255,15 @@ func checkStopFn(w *World, r *Report, pr *procRoles, rule string) {
 		"Stopped can be delivered while the worker still accepts batches: user messages may follow Stopped")
 	r.Check(g.Once(Dm) && func() bool { ok, _ := g.AtMostOnce(D); return ok }(), rule, fn+":Stopped-once", "exactly one Stopped delivery on every path of the stop function", site,
 		"a path through the stop function delivers Stopped zero times or more than once")
-	r.Check(g.AfterEntry(w.Nodes(g, evRem, true)), rule, fn+":unregisters", "the actor is removed from the registry on every path", site,
-		"a stopped actor can stay registered: later sends are accepted into a dead inbox instead of dead-lettering")
+	Rm := w.Nodes(g, evRem, true)
+	okRem := g.AfterEntry(Rm)
+	for _, d := range members(D) {
+		if !g.Before(Rm, d) {
+			okRem = false
+		}
+	}
+	r.Check(okRem, rule, fn+":unregisters", "the actor is removed from the registry on every path, before Stopped is delivered (a panicking Stopped handler cannot keep the id registered)", site,
+		"a stopped actor can stay registered: later sends are accepted into a dead inbox instead of dead-lettering, and the id can never be spawned again")
 	r.Check(g.AfterEntry(w.Nodes(g, evEvt, true)), rule, fn+":ActorStoppedEvent", "ActorStoppedEvent is published on every path", site,
 		"a path through the stop function publishes no ActorStoppedEvent")
 	r.Check(g.AfterEntry(S), rule, fn+":stops-inbox", "the inbox is stopped on every path", site, "a path through the stop function leaves the inbox running")
@@ -274,7 +283,7 @@ func checkC05(w *World, r *Report) {
 		return
 	}
 	pr.lta.export(r, "C05.R1", []string{"panic-escapes"}, "a panic in Receive never leaves the actor")
-	pr.lta.export(r, "C05.R2", []string{"incarnation-replaced-without-Stopped", "Initialized-out-of-order", "Started-out-of-order", "user-message-before-Started", "inbox-started-after-cleanup"}, "restart order")
+	pr.lta.export(r, "C05.R2", []string{"incarnation-replaced-without-Stopped", "Initialized-out-of-order", "Started-out-of-order", "user-message-before-Started", "inbox-started-after-cleanup", "restart-buffer-dropped"}, "restart order")
 
 	// R2: both recover handlers exist and hand the panic value to the restart function, synchronously
 	evRestart := EvCall("restart", pr.restartFn)
@@ -680,7 +689,9 @@ func checkC06(w *World, r *Report) {
 	checkChildrenRegion(w, r, pr, "C06.R3")
 	budgetPath := ">" + pr.restartFn.Name() + ">" + pr.stopFn.Name()
 	pr.lta.exportIf(r, "C06.R4", []string{"panic-escapes", "Stopped-twice", "terminated-without-Stopped", "inbox-started-after-cleanup", "delivery-after-Stopped"},
-		"clean termination at the restart budget", func(f lfinding) bool { return strings.Contains(f.Stack, budgetPath) })
+		"clean termination at the restart budget", func(f lfinding) bool {
+			return strings.Contains(f.Stack, budgetPath) || f.Kind == "inbox-started-after-cleanup"
+		})
 }
 
 // guardDesc describes the branch facts guarding node n (position free), to key sites of the same callee.
@@ -718,6 +729,11 @@ func checkChildrenRegion(w *World, r *Report, pr *procRoles, rule string) {
 		arg := w.pathOf(cc.Args[len(cc.Args)-1])
 		if !strings.Contains(arg, "Children(") && !strings.Contains(arg, ".children") {
 			okAll, detail = false, "the stopped pid is not taken from the context's children: "+arg
+		}
+		// the awaited context must only end when the child is done: a caller-supplied parent
+		// context (PoisonCtx) can be cancelled earlier
+		if cc.StaticCallee() == poisonCtx && len(cc.Args) == 3 && !strings.HasPrefix(w.pathOf(cc.Args[1]), "call:context.Background(") && !strings.HasPrefix(w.pathOf(cc.Args[1]), "call:context.TODO(") {
+			okAll, detail = false, "the child's stop context derives from "+w.pathOf(cc.Args[1])+": when that context is cancelled the parent stops waiting although the child is still alive"
 		}
 		// wait: a receive from Done() of that very context follows on every path
 		wait := make([]bool, len(g.ins))
@@ -940,7 +956,7 @@ func checkC07(w *World, r *Report) {
 	}
 
 	// R2
-	pr.lta.export(r, "C07.R2", []string{"cancel-before-stopped"}, "the stop context is cancelled only after the inbox stopped, the actor was unregistered and handled Stopped")
+	pr.lta.export(r, "C07.R2", []string{"cancel-before-stopped", "restart-buffer-dropped"},"the stop context is cancelled only after the inbox stopped, the actor was unregistered and handled Stopped")
 	{
 		g := w.FG(pr.stopFn)
 		var cancelP *ssa.Parameter
@@ -1085,6 +1101,8 @@ func checkC07(w *World, r *Report) {
 	}
 
 	checkPillLinearity(w, r, pr, "C07.R5")
+	r.Rule("C07.R7", "the worker loop re-reads the status before every batch: a stopped actor never sees a further batch (second pill, later messages)", 1)
+	checkLoopStatus(w, r, "C07.R7")
 
 	// R6: a crash while the pill is held (between recognising it and handing its cancel to the stop
 	// function) loses the pill: the recover handler can neither cancel nor re-buffer it.
